@@ -23,6 +23,10 @@ PROPS = {
         technique="stateless exploration of all task schedules within a delay bound (deviation-bounded DFS under an owned scheduler) of the real Muxer/Demuxer loops",
         text="Two real Plexers joined by an in-memory pipe of 8/24/4096 bytes; the real Muxer::run and Demuxer::run loops and scripted agents are tasks of an owned deterministic scheduler; every schedule with at most 3 (quick) / 4 (thorough) deviations from the default scheduler is executed to quiescence and each receiver must hold exactly its sender's chunk sequence (scenarios: two protocols, both directions, same protocol number in both roles, a 65535-byte chunk; network2: senders sharing the write half behind the interface's mutex + read_full_msgs).",
         note="tokio mpsc/duplex/Mutex are trusted to be linearizable and runtime-agnostic; Plexer::spawn itself is replaced by into_parts + the owned scheduler; preemption inside one poll is not modelled"),
+    "C25": dict(crate="mc-net1", level=EX, ref="5/C25",
+        technique="complete enumeration of all pairs of version tables over a small universe, driven through the real responders",
+        text="Every pair of version tables over versions 11..14 with each version {absent, data A, data B (other magic)} (thorough: plus same-magic/different-fields and two-field data) is negotiated by the real pallas-network handshake::Server::handshake (over the deterministic plexer rig, proposal injected raw, reply read from the wire) and by the real pallas-network2 ResponderBehavior; an Accept must name a common version with no higher common one and agreeing magics, disjoint tables must yield VersionMismatch listing exactly the responder's versions.",
+        note="tables of up to 4 versions; a refusal despite a common version is allowed by the property text"),
 }
 
 ALL_IDS = ["C%02d" % i for i in range(1, 45)]
